@@ -389,3 +389,42 @@ def distribution(lines):
             pass
         d[t] = d.get(t, 0) + 1
     return d
+
+
+# ---- fourth extension wave (builder GEN, notes/GEN.md): Gaussian::draw / generate_pair (src/distributions.rs)
+# are re-translated from <REPO>'s Rust source on every run (tools/gen_arith.py element backend -> Gen/ArithReal.v)
+# and Proofs/GenGaussianP.v re-proves "generated = hand-written model" (C17_generated_draw_matches_model).
+from tools import vlib as _vlib, gen_arith as _gen_arith
+
+TRUSTED = list(globals().get("TRUSTED", [])) + [
+    "tools/gen_arith.py (mini-Rust -> Gallina translator, element backend, notes/GEN.md): Gaussian::draw and generate_pair are re-translated on every run over the dictionary numops (T::one / pi, + - * /, sqrt ln cos sin, refs and clones transparent; the source iterator = the list of numbers it will still yield, next() = pop-front, `?` = early None with the source as it is; Vec push / pop / len; `while` = gen_while under an iteration budget) and proved equal to Model/Gaussian.v draw for every dictionary and budget >= k (C17_generated_draw_matches_model)"]
+_GEN_FAILURE = None
+
+
+def pre_proof(cov):
+    """Regenerates coq/theories/Gen/ArithReal.v from <REPO>'s Rust source (under the build lock) and builds the
+    equivalence proof; for a scratch tree (VERIF_REPO) a private copy is generated and proved instead."""
+    global _GEN_FAILURE
+    st, _GEN_FAILURE = _gen_arith.regenerate_and_prove(["theories/Proofs/GenGaussianP.vo"])
+    cov["translator"] = {k: st[k] for k in ("repo", "targets", "definitions", "not_translated", "changed") if k in st}
+    cov["translator"]["equivalence_proofs"] = "fail" if _GEN_FAILURE else "ok"
+
+
+_prev_extra = globals().get("extra")
+
+
+def extra(tier, seed, cov):
+    """the verdict of the generated-equals-model proofs (taken under the build lock in pre_proof), then the
+    translator's own table tests, then whatever extra() this module had before"""
+    out = []
+    if _GEN_FAILURE:
+        out.append(("generated-equivalence", {"property": "C17", "kind": "proof layer: a definition regenerated from the Rust source "
+                                              "no longer equals the hand-written model function", "repo": _vlib.REPO, **_GEN_FAILURE}))
+    else:
+        from tools import test_gen_arith
+        res = test_gen_arith.extra_violations("C17", tier)
+        cov.setdefault("translator", {})["self_test"] = "fail" if res else "table ok"
+        out += res
+    if _prev_extra is not None:
+        out += list(_prev_extra(tier, seed, cov))
+    return out
